@@ -37,6 +37,13 @@ CLAIMED['C20'] = dict(
    text="Coq theorems (props/C20.v, closed): for every creation spec (condition truthy/falsy/raising, message explicit/template/raising/none, else-message likewise, justification, delayed, report) the object is recorded exactly once, in the triggered list iff the condition held and nothing raised, bool = outcome, the error path (untriggered, error status, exception propagates), delayed feedback is not recorded; message_spec/message_total; every name of Formatter.available (regenerated each run) dispatches to the formatter of that name, alone or after a width spec (guards the filename/name suffix clash); after ANY history of override()/clear, a clear restores every class's own attributes and hence every inherited lookup (invariant proof). Tie: exhaustive correspondence of creation over the 1280-spec space, recording-formatter runs, and override histories on a real 4-class hierarchy observed after every operation; plus direct oracles.",
    note="Trusted: Coq kernel; T1 translator for Formatter.available; hand models of _handle_condition, FeedbackFieldWrapper.__format__/chomp_spec and override/_restore_overrides (repaired version) tied by correspondence. report=None is not supported by Feedback.__init__ at all (AttributeError before the condition runs) and is excluded. Hooks run by add_feedback, FeedbackGroup parents and pools are not modelled.",
    technique="Coq proof (finite case analysis, finite table check, invariant over operation histories) + exhaustive/ random correspondence", design="3/C20")
+SB_NOTE = ("Trusted: Coq kernel; the T4 translator tools/translate/exnflow.py (only calls may raise; attribute reads/subscripts are treated as non-raising; loops without tracked calls collapse to one site) and its contract table tools/translate/sandbox_flow.py (exec: any BaseException; compile: SyntaxError/ValueError/RecursionError; pedal-internal bookkeeping and _capture_exception: no raise - the latter is exercised by the zoo, incl. exceptions with broken __str__/__repr__); the exception lattice abstraction (7 classes); micro-model of mock.patch start/stop as a LIFO stack. What student code DOES is an oracle: theorems quantify over what it may raise, not over programs. Wall-clock behaviour is not modelled.")
+CLAIMED['C05'] = dict(
+   text="Coq theorems (props/C05.v, closed) over skeletons of Sandbox._execute/run/call/evaluate/_execute_with_timeout REGENERATED from the source on every run: for EVERY oracle (student code raising any BaseException class, compile failing, any branch) the patch stack, stdout stack and trace function are exactly restored whether the execution returns or propagates (complete path enumeration + paths_complete metatheorem); a balanced trace leaves any state unchanged, hence every history of executions does; after a timeout the abandoned thread touches nothing shared and the caller's handler undoes exactly what was started. Tie: regeneration + the exception zoo (identity of sys.stdout/time.sleep/sys.gettrace(), sys.modules keys, stack depths before/after every execution, histories, nested calls, time-outs) + skeleton-path prediction vs observation.",
+   note=SB_NOTE, technique="Coq proof over regenerated exception-flow skeletons (complete path enumeration lifted by a completeness metatheorem) + differential zoo", design="3/C05")
+CLAIMED['C04'] = dict(
+   text="Coq theorem C04_execute_contains over the regenerated skeleton of Sandbox._execute: for EVERY oracle the execution returns to the caller unless the class is outside Exception/SystemExit, with exactly one captured failure when student code did not finish and none when it did. PARTIAL: that the recording code itself does not raise is a contract entry, and 'located on the student line' / 'feedback describes that class' are checked only by the zoo oracle (every builtin exception class, user classes with broken __str__/__repr__, SystemExit forms, recursion, blocked builtins, syntax errors incl. NUL, via run/call/evaluate/import, deep frames, epilogues, re-raised objects).",
+   note=SB_NOTE, technique="Coq proof over regenerated exception-flow skeleton + exception zoo oracle", design="3/C04")
 REASONS = {}
 DEFAULT_REASON = "check not built yet (work in progress; see DESIGN.md section 6 for the order)"
 
